@@ -14,6 +14,7 @@ import (
 // ---------------------------------------------------------------- implementation side
 
 type sImpl struct {
+	big bool
 	l   *listz.SList[int]
 	h   []*listz.SNode[int]
 	ids map[*listz.SNode[int]]int
@@ -43,14 +44,71 @@ func (d *sImpl) show(e *listz.SNode[int]) string {
 // discover registers nodes allocated inside the list (PushFront/PushBack/InsertAt do not
 // return them): at most one per operation, found by walking Front/Next.
 func (d *sImpl) discover() {
-	n := 0
-	for e := d.l.Front(); e != nil && n < walkCap; e = e.Next() {
+	n, cap := 0, walkCap
+	if d.big {
+		cap = bigCap
+	}
+	for e := d.l.Front(); e != nil && n < cap; e = e.Next() {
 		d.reg(e)
 		n++
 	}
 }
 
+func (d *sImpl) dumpBig() string {
+	var ids, vs, v2 digest
+	for e := d.l.Front(); e != nil; e = e.Next() {
+		if ids.n == bigCap {
+			ids.cut, vs.cut = true, true
+			break
+		}
+		id, ok := d.ids[e]
+		if !ok {
+			id = -5
+		}
+		ids.add(id)
+		vs.add(e.Value)
+	}
+	for x := range d.l.All() {
+		if v2.n == bigCap {
+			v2.cut = true
+			break
+		}
+		v2.add(x)
+	}
+	v := vs.String()
+	if v2.String() != v {
+		v += "all!"
+	}
+	n := ids.n
+	for _, k := range []int{1, 2, n / 2, n - 2, n - 1} {
+		if k <= 0 || k >= n {
+			continue
+		}
+		cnt, e := 0, d.l.Front()
+		ok := true
+		for x := range d.l.All() {
+			if e == nil || x != e.Value {
+				ok = false
+				break
+			}
+			e = e.Next()
+			cnt++
+			if cnt == k {
+				break
+			}
+		}
+		if !ok || cnt != k {
+			v += "all-break!"
+			break
+		}
+	}
+	return fmt.Sprintf("%d h=%s t=%s n~%s v~%s", d.l.Len(), d.show(d.l.Front()), d.show(d.l.Back()), ids.String(), v)
+}
+
 func (d *sImpl) dump() string {
+	if d.big {
+		return d.dumpBig()
+	}
 	var ids, vs []string
 	n := 0
 	for e := d.l.Front(); e != nil; e = e.Next() {
@@ -70,18 +128,8 @@ func (d *sImpl) dump() string {
 		vs = append(vs, strconv.Itoa(x))
 		n++
 	}
-	// iter.go: an early break must stop the iterator after exactly the yielded prefix
-	if k := len(vs) / 2; k > 0 {
-		var pre []string
-		for x := range d.l.All() {
-			pre = append(pre, strconv.Itoa(x))
-			if len(pre) == k {
-				break
-			}
-		}
-		if strings.Join(pre, " ") != strings.Join(vs[:k], " ") {
-			vs = append(vs, "all-break!")
-		}
+	if !breakOK(d.l.All(), vs) {
+		vs = append(vs, "all-break!")
 	}
 	return fmt.Sprintf("%d h=%s t=%s n[%s] v[%s]", d.l.Len(), d.show(d.l.Front()), d.show(d.l.Back()), strings.Join(ids, " "), strings.Join(vs, " "))
 }
@@ -90,10 +138,19 @@ func implS(c core.Case) []string {
 	d := &sImpl{ids: map[*listz.SNode[int]]int{}}
 	return core.RunOps(c,
 		func(hdr []string) string {
-			if len(hdr) != 1 {
+			h := hdr[1:]
+			if len(h) > 0 && h[len(h)-1] == "big" {
+				d.big = true
+				h = h[:len(h)-1]
+			}
+			switch {
+			case len(h) == 0, len(h) == 1 && h[0] == "n":
+				d.l = listz.NewSingly[int]()
+			case len(h) == 1 && h[0] == "z":
+				d.l = new(listz.SList[int]) // the zero value
+			default:
 				return "bad-op"
 			}
-			d.l = listz.NewSingly[int]()
 			return "ok | " + d.dump()
 		},
 		func(t []string) string {
@@ -109,6 +166,26 @@ func implS(c core.Case) []string {
 func (d *sImpl) step(t []string) string {
 	if len(t) == 0 {
 		return "bad-op"
+	}
+	if t[0] == "pushn" || t[0] == "removen" || t[0] == "removeln" {
+		if len(t) != 2 {
+			return "bad-op"
+		}
+		k, err := strconv.Atoi(t[1])
+		if err != nil || k < 0 || strings.HasPrefix(t[1], "+") || strings.HasPrefix(t[1], "-") {
+			return "bad-op"
+		}
+		for i := 0; i < k; i++ {
+			switch t[0] {
+			case "pushn":
+				d.l.PushBack(i % 10)
+			case "removen":
+				d.l.RemoveFront()
+			default:
+				d.l.Remove(d.l.Len() - 1)
+			}
+		}
+		return "ok"
 	}
 	arity := map[string]int{"new": 1, "get": 1, "rm": 1, "rmf": 0, "pf": 1, "pb": 1, "ins": 2, "pfn": 1, "pbn": 1, "insn": 2, "swap": 2, "len": 0, "front": 0, "back": 0, "next": 1}
 	n, ok := arity[t[0]]
@@ -196,7 +273,25 @@ func checkS(c core.Case, out []string) *core.Failure {
 		}
 		return strconv.Itoa(p)
 	}
+	hdr := core.Toks(c.Lines[0])
+	big := len(hdr) > 3 && hdr[len(hdr)-1] == "big"
 	dump := func() string {
+		if big {
+			var ids, vs digest
+			for k, x := range s {
+				if k == bigCap {
+					ids.cut, vs.cut = true, true
+					break
+				}
+				ids.add(x.id)
+				vs.add(x.v)
+			}
+			h, t := -1, -1
+			if len(s) > 0 {
+				h, t = s[0].id, s[len(s)-1].id
+			}
+			return fmt.Sprintf("%d h=%s t=%s n~%s v~%s", len(s), show(h), show(t), ids.String(), vs.String())
+		}
 		var ids, vs []string
 		for _, x := range s {
 			ids = append(ids, strconv.Itoa(x.id))
@@ -242,6 +337,32 @@ func checkS(c core.Case, out []string) *core.Failure {
 				return nil
 			}
 			a[k] = x
+		}
+		if t[0] == "pushn" || t[0] == "removen" || t[0] == "removeln" {
+			if len(a) != 1 || a[0] < 0 {
+				return nil
+			}
+			for n := 0; n < a[0]; n++ {
+				switch t[0] {
+				case "pushn":
+					s = append(s, sCell{next, n % 10})
+					next++
+				case "removen":
+					if len(s) > 0 {
+						vals[s[0].id] = s[0].v
+						s = s[1:]
+					}
+				default:
+					if len(s) > 0 {
+						vals[s[len(s)-1].id] = s[len(s)-1].v
+						s = s[:len(s)-1]
+					}
+				}
+			}
+			if want := "ok | " + dump(); out[i] != want {
+				return &core.Failure{Key: "slist-" + t[0], Desc: fmt.Sprintf("op %d %q: implementation answered %q, sequence semantics give %q", i, c.Lines[i], clip(out[i]), clip(want))}
+			}
+			continue
 		}
 		arity := map[string]int{"new": 1, "get": 1, "rm": 1, "rmf": 0, "pf": 1, "pb": 1, "ins": 2, "pfn": 1, "pbn": 1, "insn": 2, "swap": 2, "len": 0, "front": 0, "back": 0, "next": 1}
 		if n, ok := arity[t[0]]; !ok || n != len(a) {
@@ -330,7 +451,7 @@ func checkS(c core.Case, out []string) *core.Failure {
 		}
 		want := res + " | " + dump()
 		if out[i] != want {
-			return &core.Failure{Key: "slist-" + t[0], Desc: fmt.Sprintf("op %d %q: implementation answered %q, sequence semantics give %q", i, c.Lines[i], out[i], want)}
+			return &core.Failure{Key: "slist-" + t[0], Desc: fmt.Sprintf("op %d %q: implementation answered %q, sequence semantics give %q", i, c.Lines[i], clip(out[i]), clip(want))}
 		}
 	}
 	return nil
